@@ -95,6 +95,10 @@ impl<A: Afi> WriteXml for Differences<'_, A> {
             let elem = writer.create_element("term");
             match (self.old, self.new.is_empty()) {
                 (Some(old), true) if !old.is_empty() => elem.with_attribute(("delete", "delete")),
+                // Nothing installed and nothing to install for this address family: writing
+                // `<term><name>..</name></term>` would create an empty term, which the reader
+                // of the installed policies rejects on the next run.
+                (_, true) => return Ok(()),
                 _ => elem,
             }
         };
